@@ -56,7 +56,11 @@ func candidates(sc *Scenario, last *Result) []*Scenario {
 			reps := len(sc.Groups) / period
 			if reps > 3 {
 				add(func(c *Scenario) bool { c.Groups = c.Groups[:3*period]; setPeriodNote(c, period, 3); return true })
-				add(func(c *Scenario) bool { c.Groups = c.Groups[:(reps-1)*period]; setPeriodNote(c, period, reps-1); return true })
+				add(func(c *Scenario) bool {
+					c.Groups = c.Groups[:(reps-1)*period]
+					setPeriodNote(c, period, reps-1)
+					return true
+				})
 			}
 			if period > 1 {
 				for b := 0; b < period; b++ {
